@@ -316,13 +316,22 @@ theorem decode_scalar_ok (X : Ext) (s : Sch) {evs r : List Ev} {raw : Bytes} {v 
     | (simp [isScalar] at hs; done)
     | (rw [decode.eq_3 X _ _ (by intros; contradiction) (by intros; contradiction)]; simp [htext, hval])
 
+/-- `Deserializer::text` at an end tag: the empty text -/
+theorem textOf_stop (n : Bytes) (rest : List Ev) : textOf (.stop n :: rest) = .ok ([], .stop n :: rest) := by
+  simp [textOf, textLoop]
+
+/-- `Deserializer::text` at a lone text piece: the piece as it is (fast path) -/
+theorem textOf_text_stop (raw n : Bytes) (rest : List Ev) :
+    textOf (.text raw :: .stop n :: rest) = .ok (raw, .stop n :: rest) := by
+  simp [textOf, textLoop]
+
 theorem decode_scalar_text (X : Ext) (s : Sch) (raw : Bytes) (v : Val) (n : Bytes) (rest : List Ev)
     (hs : isScalar s = true) (hraw : decodeScalarText X s raw = .ok v) :
     decode X s (textEv raw ++ .stop n :: rest) = .ok (v, .stop n :: rest) := by
   by_cases hr : raw = []
   · subst hr
-    exact decode_scalar_ok X s hs (by simp [textEv, textOf]) hraw
-  · exact decode_scalar_ok X s hs (by simp [textEv, hr, textOf]) hraw
+    exact decode_scalar_ok X s hs (by simp [textEv, textOf_stop]) hraw
+  · exact decode_scalar_ok X s hs (by simp [textEv, hr, textOf_text_stop]) hraw
 
 
 /-! ### the round trip -/
